@@ -357,6 +357,7 @@ def parser_key(p, snap):
             body.processSpaceCharacters.__name__,
             p.framesetOK, p.compatMode, bool(p.innerHTML) and p.innerHTML,
             getattr(p.tree, "insertFromTable", None),
+            getattr(p, "dropNextNewline", None),
         )
         return (misc, _dom_live_key(p), snap)
     except Exception as e:
